@@ -146,9 +146,77 @@ def r10d(F):
 	out += guarded_by_call(F, '10.d', FN, acts, ['no_further_updates_allowed'], 'bool', False)
 	return out
 
+OPAY = 'lightning::ln::outbound_payment::'
+OP = OPAY + 'OutboundPayments::'
+
+def r10g(F):
+	"""payments rebuilt from monitors: an entry that had not yet recorded any HTLC is replaced by a Retryable one holding the HTLC found in the monitor"""
+	out = []
+	fn = OP + 'insert_from_monitor_on_startup'
+	fu = F.func(fn)
+	adt = F.adt(OPAY + 'PendingOutboundPayment')
+	vs = enum_variants(F, adt)
+	with_privs = {rec[0] for rec in F.adts[adt] if rec[1] == 'session_privs'}
+	pre_htlc = [v for v in vs if v not in with_privs]
+	if len(pre_htlc) < 2 or len(with_privs) < 3:
+		return [Result('10.g', False, 'anchor:variants', 'PendingOutboundPayment: variants with/without session_privs not recognised (%s / %s)' % (sorted(with_privs), pre_htlc))]
+	sw = [x for x in variant_switch_edges(fu, lambda pl: True, vs) if len(x[1]) >= 2]
+	if not sw:
+		return [Result('10.g', False, 'anchor:variant-switch', 'insert_from_monitor_on_startup no longer matches on the existing PendingOutboundPayment variant', where=F.where(fn))]
+	sb, m, other = max(sw, key=lambda x: len(x[1]))
+	retry = {b for b, s in sites_construct(fu, 'PendingOutboundPayment', 'Retryable')}
+	ins = set(sites_call(fu, [OPAY + 'PendingOutboundPayment::insert']))
+	targets = set(m.values()) | {other}
+	def arm(v):
+		return m.get(v, other)
+	for v in vs:
+		tb = arm(v)
+		same = {x for x in vs if arm(x) == tb}
+		r = fu.reach([tb], removed_blocks=(targets - {tb}) | {sb})
+		if v in pre_htlc:
+			ok = bool(r & retry) and not (r & ins)
+			out.append(Result('10.g', ok, ('ok:' if ok else 'table:') + 'rebuild:' + v, 'an existing %s entry (no HTLC recorded yet) is replaced by a Retryable payment holding the monitor\'s HTLC' % v if ok else 'an existing %s entry is NOT converted to Retryable when the monitor already holds an HTLC for it: the payment would be sent again' % v, 1, where=F.where(fn, fu.line_of(tb))))
+		else:
+			ok = bool(r & ins) and not (r & retry)
+			out.append(Result('10.g', ok, ('ok:' if ok else 'table:') + 'add-path:' + v, 'an existing %s entry gets the monitor\'s HTLC added as one more path' % v, 1, where=F.where(fn, fu.line_of(tb))))
+	return out
+
+def r10h(F):
+	"""the monitor is told a payment's resolution was handled only together with the LAST event generated for it"""
+	out = []
+	fn = OP + 'fail_htlc'
+	fu = F.func(fn)
+	ex = Expr(fu)
+	pushes = []
+	for b in fu.call_blocks(lambda p: p.endswith('VecDeque::push_back')):
+		a = ex.of_operand(fu.blocks[b]['t'][2]['args'][1])
+		act = None
+		if a[0] == 'agg' and len(a[3]) == 2:
+			act = a[3][1]
+		if act is None:
+			continue
+		is_none = act[0] == 'agg' and act[2] == 'None'
+		ev = expr_str(a[3][0])
+		pushes.append((b, is_none, ev))
+	withact = [p for p in pushes if not p[1]]
+	if len(pushes) < 2 or not withact:
+		return [Result('10.h', False, 'anchor:event-pushes', 'fail_htlc: event pushes with their completion actions not found (%d pushes, %d with an action)' % (len(pushes), len(withact)), len(pushes), where=F.where(fn))]
+	allb = {p[0] for p in pushes}
+	for b, is_none, ev in withact:
+		later = fu.reach([s2 for s2 in fu.succ(b)]) & allb
+		out.append(Result('10.h', not later, ('ok:' if not later else 'order:') + 'action-on-last-event@%d' % withact.index((b, is_none, ev)), 'the completion action (ReleasePaymentCompleteChannelMonitorUpdate) rides on the last event pushed for the HTLC' if not later else 'an event carrying the completion action is followed by another event push (line %s): handling the first event would already tell the monitor the payment is resolved, and a crash before the terminal event loses it' % [fu.line_of(x) for x in later], len(pushes), where=F.where(fn, fu.line_of(b))))
+	# and every path to return that pushes anything ends with an action-carrying push
+	nb = [p[0] for p in pushes if p[1]]
+	for b in nb:
+		p = fu.path([s2 for s2 in fu.succ(b)], fu.return_blocks(), removed_blocks={x[0] for x in withact})
+		out.append(Result('10.h', p is None, ('ok:' if p is None else 'order:') + 'none-push-followed@%d' % nb.index(b), 'an event pushed without completion action is always followed by the event that carries it', 1, where=F.where(fn, fu.line_of(b))))
+	return out
+
 RULES = [
 	('10.a', 'resume only when the manager is not behind the monitor (else force-close + regenerated update); monitor behind manager => DangerousValue', r10a),
 	('10.b', 'the Watch is driven only after background events ran; the flag is stored only by process_background_events', r10b),
 	('10.c', 'in-flight replay: exactly the updates newer than the monitor are replayed; all-complete means all', r10c),
+	('10.g', 'payments rebuilt from monitors: entries without recorded HTLCs become Retryable, others get the path added', r10g),
+	('10.h', 'the payment-complete monitor update is released only by the last event of a failed HTLC', r10h),
 	('10.d', 'startup-only helpers are reachable only from the restart routine; reconstruction calls exist', r10d),
 ]
